@@ -226,6 +226,9 @@ pub enum Recipe {
     Marker { bytes: Vec<u8> },
     /// 0xff + valid prefix + tag + length (+ rest of genuine message if `keep`)
     Part { tag: u8, len: usize, keep: bool },
+    /// well-formed message of `stage` whose 64 signature bytes are one of a few degenerate values (all zero, R = the neutral
+    /// element with S = 0, R = a point of small order with S = 0, all 0xff): no key is needed to write those down
+    Degenerate { stage: u8, graft: bool, variant: u8, pattern: u8 },
 }
 
 fn untrusted_msg(stage: u8, variant: u8, genuine_prefix: Option<&[u8]>) -> Vec<u8> {
@@ -293,6 +296,40 @@ fn realise(setup: &Setup, recipe: &Recipe) -> Option<(Vec<u8>, u8)> {
         Recipe::Untrusted { stage, graft, variant } => {
             let prefix = setup.genuine[0].1.clone();
             (untrusted_msg(*stage, *variant, if *graft { Some(&prefix) } else { None }), 0)
+        }
+        Recipe::Degenerate { stage, graft, variant, pattern } => {
+            let prefix = setup.genuine[0].1.clone();
+            let mut d = untrusted_msg(*stage, *variant, if *graft { Some(&prefix) } else { None });
+            let n = d.len();
+            if n < 64 {
+                return None;
+            }
+            let sig = &mut d[n - 64..];
+            match pattern % 5 {
+                0 => sig.iter_mut().for_each(|b| *b = 0),
+                1 => {
+                    sig.iter_mut().for_each(|b| *b = 0);
+                    sig[0] = 1; // R = neutral element (y = 1), S = 0
+                }
+                2 => {
+                    sig.iter_mut().for_each(|b| *b = 0);
+                    sig[0] = 0xec; // R = y = -1 (order 2): ec ff .. ff 7f
+                    for b in sig[1..31].iter_mut() {
+                        *b = 0xff;
+                    }
+                    sig[31] = 0x7f;
+                }
+                3 => {
+                    sig.iter_mut().for_each(|b| *b = 0); // R = y = 0 (order 4), S = 0
+                    sig[31] = 0x80;
+                }
+                _ => sig.iter_mut().for_each(|b| *b = 0xff),
+            }
+            if !*graft {
+                // an unknown key: random-looking salt and hash
+                d[1..9].copy_from_slice(&[0x5a, 0xc3, *variant, *pattern, 0x11, 0x7e, *stage, 0x99]);
+            }
+            (d, 0)
         }
         Recipe::Marker { bytes } => {
             let mut d = vec![0xff];
@@ -374,6 +411,15 @@ fn recipes(stage: &str, tier: Tier) -> Vec<(String, Recipe)> {
         for graft in [false, true] {
             for variant in 0..ctx_variants(tier) {
                 v.push((format!("untrusted stage {} graft {} variant {}", st, graft, variant), Recipe::Untrusted { stage: st, graft, variant }));
+            }
+        }
+    }
+    for st in [1u8, 2, 3] {
+        for graft in [false, true] {
+            for variant in 0..60u8 {
+                for pattern in 0..5u8 {
+                    v.push((format!("degenerate signature {} stage {} graft {} variant {}", pattern, st, graft, variant), Recipe::Degenerate { stage: st, graft, variant, pattern }));
+                }
             }
         }
     }
@@ -466,6 +512,7 @@ fn recipe_kind(r: &Recipe) -> &'static str {
         Recipe::Untrusted { .. } => "untrusted",
         Recipe::Marker { .. } => "marker",
         Recipe::Part { .. } => "part",
+        Recipe::Degenerate { .. } => "degenerate_signature",
     }
 }
 
